@@ -29,7 +29,7 @@ func (s scenario) String() string {
 	return fmt.Sprintf("cause=%s state=%s will(qos=%d retain=%t)", s.Cause, s.State, s.QoS, s.Retain)
 }
 
-var causes = []string{"disconnect", "peer-eof", "corrupt-frame", "second-connect", "connack-from-client", "suback-from-client", "pingresp-from-client", "oversized", "keepalive-expiry", "takeover-clean", "takeover-unclean", "backend-close", "token-timeout", "backend-publish-fails", "backend-subscribe-fails", "auth-rejected", "setup-fails", "connack-send-fails-before", "connack-send-fails-after"}
+var causes = []string{"disconnect", "disconnect-then-vanish", "peer-eof", "corrupt-frame", "second-connect", "connack-from-client", "suback-from-client", "pingresp-from-client", "oversized", "keepalive-expiry", "takeover-clean", "takeover-unclean", "backend-close", "token-timeout", "backend-publish-fails", "backend-subscribe-fails", "auth-rejected", "setup-fails", "connack-send-fails-before", "connack-send-fails-after"}
 var states = []string{"idle", "inbound-q1-done", "inbound-q2-open", "outbound-unacked", "blocked-on-token", "outbound-traffic-flowing"}
 
 func applicable(s scenario) bool {
@@ -38,6 +38,9 @@ func applicable(s scenario) bool {
 		return s.State == "idle"
 	case "token-timeout":
 		return s.State == "blocked-on-token"
+	}
+	if s.Cause == "disconnect-then-vanish" {
+		return s.State == "idle" || s.State == "inbound-q1-done"
 	}
 	if s.State == "outbound-traffic-flowing" {
 		// a silent client the broker keeps forwarding QoS 0 traffic to: only keep-alive can end it
@@ -70,6 +73,11 @@ func run(r *h.Run, sc scenario) {
 		in.Credentials = map[string]string{"good": "pw"}
 	}
 	b.Engine.ReadLimit = 4096
+	if sc.Cause == "disconnect-then-vanish" {
+		// buffered writes: the PINGRESP is still unflushed when the DISCONNECT is
+		// processed, and the flush at close fails because the peer is gone
+		b.Engine.MaxWriteDelay = 20 * time.Millisecond
+	}
 	closedBackend := false
 	defer func() {
 		if !closedBackend {
@@ -241,6 +249,11 @@ func run(r *h.Run, sc scenario) {
 			_ = v.Send(&packet.Pingresp{})
 		case "oversized":
 			_ = v.Send(&packet.Publish{Message: packet.Message{Topic: "other/big", Payload: bytes.Repeat([]byte{'z'}, 9000)}})
+		case "disconnect-then-vanish":
+			pr, _ := ref.Encode(&packet.Pingreq{})
+			dc, _ := ref.Encode(&packet.Disconnect{})
+			_ = v.SendRaw(append(pr, dc...), "PINGREQ+DISCONNECT in one write, then the peer vanishes")
+			v.Close()
 		case "keepalive-expiry":
 			// stay silent; the broker's read timeout (1.5 x 40 ms) closes the connection
 		case "takeover-clean", "takeover-unclean":
@@ -646,7 +659,7 @@ func stalledVictim(r *h.Run, idx int) {
 
 func TestCheck(t *testing.T) {
 	r := h.New("C12", "fault_enumeration")
-	r.Rule("termination cause {DISCONNECT, peer EOF, corrupt frame, second CONNECT, CONNACK/SUBACK/PINGRESP from the client, oversized packet, keep-alive expiry, takeover by the same id (clean/unclean), MemoryBackend.Close, token-timeout kill, Backend.Publish/Subscribe failing, rejected authentication, failing Setup, CONNACK send failing before/after} x protocol state {idle, inbound QoS 1 done, inbound QoS 2 open, outbound delivery unacknowledged, blocked on a publish token} x will QoS 0-2 x retain; oracle: number of Backend.Publish calls with the will's content on behalf of the victim after its Closed() fired = 1 iff Setup succeeded and the broker did not log a received DISCONNECT, content unchanged; online, offline-persistent and late (retained) observers consistent with it. Stalled-victim part: a victim subscribed to its own retained will's topic with full window and queue dies; the will is handed to the backend once and a later subscriber gets it. Back-pressure part: an online observer with window 1 and queue 1, both full, when a victim with a QoS 1/2 will loses its connection: after the observer acknowledges it must get the will exactly once. Non-trivial = (cause,state) pairs in which the client had been accepted; distinct by scenario")
+	r.Rule("termination cause {DISCONNECT, DISCONNECT behind a PINGREQ from a peer that vanishes at once (buffered writes: the flush at close fails), peer EOF, corrupt frame, second CONNECT, CONNACK/SUBACK/PINGRESP from the client, oversized packet, keep-alive expiry, takeover by the same id (clean/unclean), MemoryBackend.Close, token-timeout kill, Backend.Publish/Subscribe failing, rejected authentication, failing Setup, CONNACK send failing before/after} x protocol state {idle, inbound QoS 1 done, inbound QoS 2 open, outbound delivery unacknowledged, blocked on a publish token} x will QoS 0-2 x retain; oracle: number of Backend.Publish calls with the will's content on behalf of the victim after its Closed() fired = 1 iff Setup succeeded and the broker did not log a received DISCONNECT, content unchanged; online, offline-persistent and late (retained) observers consistent with it. Stalled-victim part: a victim subscribed to its own retained will's topic with full window and queue dies; the will is handed to the backend once and a later subscriber gets it. Back-pressure part: an online observer with window 1 and queue 1, both full, when a victim with a QoS 1/2 will loses its connection: after the observer acknowledges it must get the will exactly once. Non-trivial = (cause,state) pairs in which the client had been accepted; distinct by scenario")
 	r.Assume("DISCONNECT racing with another cause is judged by what the broker logged as received")
 	r.Exhaustive()
 	var list []scenario
